@@ -10,7 +10,8 @@ Families
     healthy   bounded delays (<= 10 % of the probe interval), nobody stopped: any DEAD refutes
     crash     bounded delays, one member stopped for good (CrashNode fault, or cut off with
               `network.partition`) at a generated phase of the probe cycle: an ALIVE report later
-              than t + (3N+10) probe intervals refutes; DEAD between live members refutes
+              than t + (3N+10) probe intervals refutes; DEAD between live members refutes;
+              direct probes sent to the stopped member are counted where they enter the network
     gossip    bounded delays + one scripted peer that injects well-formed stale / fresh
               suspect / dead / alive updates: DEAD -> ALIVE without a higher incarnation refutes
     churn     lossy / slow / partitioned network (no accuracy claim): DEAD -> ALIVE refutes
@@ -44,7 +45,9 @@ RULE = (
     "case for the probe-order shuffles) on ChaosLinks whose every delay comes from a JSON delay script. healthy/"
     "crash/gossip: every delay <= 10 % of the probe interval (measured from the script log, else harness error). "
     "crash: one member stopped for good by a CrashNode fault or by network.partition at a generated phase of the "
-    "probe cycle (early / warm-up / late); bound B = (3N+10) probe intervals, run until t+B+3 intervals. gossip: a "
+    "probe cycle (early / warm-up / late); bound B = (3N+10) probe intervals; the run ends at t+B+3 intervals when every "
+    "live view has left ALIVE, otherwise it is followed to t+3B+3 so that the mechanism key can tell 'late' from 'not at "
+    "all' (both are violations). gossip: a "
     "scripted extra peer sends well-formed pings whose update lists carry suspect/dead/alive at incarnations 0-4. "
     "churn: loss, delays up to several probe intervals, partitions that heal, pause windows. phi: detector alone, "
     "heartbeat histories (regular, bursty, single, zero-variance, exponential) with grids (fine, geometric to 1e12 s, "
@@ -56,7 +59,7 @@ RULE = (
 ASSUMPTIONS = [
     "'stopped for good' = CrashNode fault without restart (events to the member are dropped) or network.partition([x], others) never healed",
     "'healthy network' = no loss, no partition, every link delay <= 10 % of the probe interval (round trip <= 20 % < the 50 % ack timeout)",
-    "'bounded number of probe rounds' is restated as B = (3N+10) probe intervals after the stop, fixed before measuring",
+    "'bounded number of probe rounds' is restated as B = (3N+10) probe intervals after the stop, fixed before measuring; any ALIVE report about the stopped member sampled later than stop + B is a violation",
     "documented parameter ranges taken as: probe_interval 0.1-10 s, suspicion_timeout 0.25-12 probe intervals, indirect_probe_count 0-5, phi_threshold 1-12 (defaults 1.0 / 5.0 / 3 / 8.0; tests use 0.5 / 3.0 / 4.0)",
     "SUSPECT counts as 'no longer reported ALIVE' (the statement asks only that ALIVE reports stop)",
     "the incarnation of a DEAD report is bounded below by the incarnations of the updates the observer visibly applied; a DEAD -> ALIVE transition is accepted when any incarnation for that member delivered to the observer since the DEAD report is higher than that lower bound",
@@ -503,9 +506,7 @@ class _Monitor:
                     )
             self.dead_inc[yi][xi] = None
             self.since_dead[yi][xi] = None
-        if old is MS.DEAD and new is MS.SUSPECT:
-            # not an ALIVE report; the pending DEAD bookkeeping stays
-            pass
+        # DEAD -> SUSPECT is not an ALIVE report: the pending DEAD bookkeeping stays until an ALIVE report
 
     def _false_death(self, yi, xi, t, ev, by_gossip):
         if xi >= self.n:
